@@ -90,6 +90,18 @@ def no_unknowns(F, R, names, rule='U0'):
         for vg, label in vgs:
             for what, where in vg.unknowns:
                 R.violation(rule, '%s:%s:%s' % (n, label, what), 'construct not understood by the value graph (%s): the analysis of %s is incomplete' % (what, n), where)
+        # ... and an opaque term must not hide inside a result either (a belt to the braces above)
+        for exits_, label in ((m.up_exits, 'update'), (m.last_exits, 'last')):
+            tags = set()
+            for ex in exits_:
+                for t_ in list(ex.fields.values()) + [ex.ret] + [c for c in ex.pc if isinstance(c, tuple)]:
+                    if isinstance(t_, tuple):
+                        for x in subterms(t_):
+                            if x[0] == 'unk' and x[1] not in ('dead',):
+                                tags.add(x[1])
+            for tg in sorted(tags):
+                if not any(what == tg for vg, lb in vgs for what, _ in vg.unknowns):
+                    R.violation(rule, '%s:%s:opaque:%s' % (n, label, tg), 'an opaque term (%s) occurs in the result of %s: the analysis of %s is incomplete' % (tg, label, n), v.file)
         for mm in m.ctor_models:
             if mm['init'] is None:
                 R.violation(rule, '%s:%s:no-initial-state' % (n, mm['fn'].name), 'the value built by constructor %s is not a struct the value graph can read the initial state from' % mm['fn'].name, v.file)
